@@ -16,9 +16,97 @@ type R struct {
 	c *core.Ctx
 	p *core.Prog
 	d *core.D
+	// lifted call sites: a site found in a helper that only the anchor
+	// function calls is judged in the anchor's terms (parameters substituted by
+	// the arguments of the helper's single call site, caller facts added)
+	lifted map[ssa.Instruction]*siteCtx
 }
 
-func newR(c *core.Ctx) *R { return &R{c: c, p: c.P, d: c.P.D()} }
+type siteCtx struct {
+	subst map[*ssa.Parameter]string
+	outer []core.Atom
+	via   string
+}
+
+func newR(c *core.Ctx) *R {
+	return &R{c: c, p: c.P, d: c.P.D(), lifted: map[ssa.Instruction]*siteCtx{}}
+}
+
+// dOf returns the descriptor context for an instruction (substituting the
+// parameters of a helper it was lifted from).
+func (r *R) dOf(ins ssa.Instruction) *core.D {
+	if sc, ok := r.lifted[ins]; ok {
+		d := r.p.D()
+		d.Subst = sc.subst
+		return d
+	}
+	return r.d
+}
+
+// atomsAt returns the guard atoms holding at an instruction, in the anchor
+// function's terms.
+func (r *R) atomsAt(ins ssa.Instruction) []core.Atom {
+	sc, ok := r.lifted[ins]
+	if !ok {
+		return r.p.AtomsAtInstr(ins)
+	}
+	d := r.dOf(ins)
+	out := append([]core.Atom{}, sc.outer...)
+	for _, f := range r.p.Facts(ins.Parent())[ins.Block()] {
+		out = append(out, d.NormAtom(f.Cond, f.Pol))
+	}
+	return out
+}
+
+// liftedSites searches the helpers of fn (static callees in production code
+// that have exactly one call site in the whole program, up to two levels) for
+// call sites of the callees, registering their context.
+func (r *R) liftedSites(fn *ssa.Function, depth int, outer *siteCtx, want map[string]bool) []ssa.CallInstruction {
+	var out []ssa.CallInstruction
+	for _, ci := range core.CallSites(fn) {
+		if _, isGo := ci.(*ssa.Go); isGo {
+			continue
+		}
+		h := ci.Common().StaticCallee()
+		if h == nil || !r.p.InProd(h) || len(h.Blocks) == 0 || h == fn || h.Parent() != nil {
+			continue
+		}
+		n := 0
+		for _, ss := range r.p.Callers(core.ShortFn(h)) {
+			n += len(ss)
+		}
+		if n != 1 {
+			continue
+		}
+		// context of the helper body
+		d := r.p.D()
+		if outer != nil {
+			d.Subst = outer.subst
+		}
+		sc := &siteCtx{subst: map[*ssa.Parameter]string{}, via: core.ShortFn(h)}
+		for i, q := range h.Params {
+			if i < len(ci.Common().Args) {
+				sc.subst[q] = d.Of(ci.Common().Args[i])
+			}
+		}
+		if outer != nil {
+			sc.outer = append(sc.outer, outer.outer...)
+		}
+		for _, f := range r.p.Facts(fn)[ci.Block()] {
+			sc.outer = append(sc.outer, d.NormAtom(f.Cond, f.Pol))
+		}
+		for _, s2 := range core.CallSites(h) {
+			if want[r.p.CalleeName(s2.Common())] {
+				r.lifted[s2.(ssa.Instruction)] = sc
+				out = append(out, s2)
+			}
+		}
+		if depth > 1 {
+			out = append(out, r.liftedSites(h, depth-1, sc, want)...)
+		}
+	}
+	return out
+}
 
 // fn resolves an anchor function; an unresolved anchor is undecided.
 func (r *R) fn(rule, rel, recv, name string) *ssa.Function {
@@ -43,7 +131,16 @@ func (r *R) sites(fn *ssa.Function, deep bool, callees ...string) []ssa.CallInst
 	if fn == nil {
 		return nil
 	}
-	return r.p.CallsTo(fn, deep, callees...)
+	out := r.p.CallsTo(fn, deep, callees...)
+	if len(out) == 0 {
+		// the call may have been extracted into a helper only this function uses
+		want := map[string]bool{}
+		for _, c := range callees {
+			want[c] = true
+		}
+		out = r.liftedSites(fn, 2, nil, want)
+	}
+	return out
 }
 
 // siteKey names a call site by function + callee + ordinal (never by line).
@@ -69,7 +166,7 @@ func (r *R) siteKey(site ssa.CallInstruction) string {
 // guarded checks that every listed atom ("+a"/"-a") holds at the site by
 // dominance; reports one obligation.
 func (r *R) guarded(rule string, site ssa.Instruction, key string, atoms ...string) bool {
-	have := r.p.AtomsAtInstr(site)
+	have := r.atomsAt(site)
 	var missing []string
 	for _, a := range atoms {
 		if !core.HasAtom(have, core.ParseAtom(a)) {
@@ -109,7 +206,7 @@ func (r *R) argIs(rule string, site ssa.CallInstruction, i int, want string, wha
 	v := core.Arg(site.Common(), i)
 	got := "<missing>"
 	if v != nil {
-		got = r.d.Of(v)
+		got = r.dOf(site.(ssa.Instruction)).Of(v)
 	}
 	key := r.siteKey(site) + fmt.Sprintf("/arg%d", i)
 	return r.c.Check(got == want, rule, key, r.p.InstrPos(site), what+" is "+want, fmt.Sprintf("%s should be %s but is %s", what, want, got))
@@ -144,6 +241,8 @@ func (r *R) onlyCallers(rule, callee string, min int, allowed ...string) {
 		site := r.p.InstrPos(names[n][0])
 		if al[n] {
 			r.c.OK(rule, key, site, "caller is in the confirmed set")
+		} else if via := r.singleCallerChain(n, al, 3); via != "" {
+			r.c.OK(rule, key, site, "called from a helper used only by a confirmed caller ("+via+")")
 		} else {
 			r.c.Bad(rule, key, site, fmt.Sprintf("new caller of %s: %s is not in the confirmed set {%s}; if this caller is legitimate a reviewer must confirm it and add it to the table", callee, n, strings.Join(allowed, ", ")))
 		}
@@ -203,7 +302,7 @@ func (r *R) v(site ssa.CallInstruction) string {
 		return "<unresolved>"
 	}
 	if val := site.Value(); val != nil {
-		return r.d.Of(val)
+		return r.dOf(site.(ssa.Instruction)).Of(val)
 	}
 	return "<novalue>"
 }
@@ -458,4 +557,30 @@ func isPtrToInt(v ssa.Value) bool {
 	}
 	b, ok := pt.Elem().Underlying().(*types.Basic)
 	return ok && b.Info()&types.IsInteger != 0
+}
+
+// singleCallerChain: name is a function with exactly one call site in the
+// program, and following such single call sites upwards reaches an allowed
+// function within depth steps. Returns the chain, or "".
+func (r *R) singleCallerChain(name string, allowed map[string]bool, depth int) string {
+	chain := name
+	cur := name
+	for i := 0; i < depth; i++ {
+		callers := r.p.Callers(cur)
+		n := 0
+		var up string
+		for fn, ss := range callers {
+			n += len(ss)
+			up = core.ShortFn(core.TopLevel(fn))
+		}
+		if n != 1 {
+			return ""
+		}
+		chain = up + " → " + chain
+		if allowed[up] {
+			return chain
+		}
+		cur = up
+	}
+	return ""
 }
